@@ -131,6 +131,59 @@ def task_uncached(dates):
             out.violation("harness:yaml-seam-changes-environment", {"date": ds}, "cached and uncached YAML give different environments")
     return out.dump()
 
+def _bump_in_place(x, depth=0):
+    """What a user does for a reform: edit the returned dictionaries in place (every numeric leaf, every array)."""
+    import numpy as np
+
+    if isinstance(x, dict):
+        for k in list(x):
+            v = x[k]
+            if isinstance(v, (dict, list)):
+                _bump_in_place(v, depth + 1)
+            elif isinstance(v, np.ndarray) and v.dtype.kind == "f":
+                v *= 1.25
+            elif isinstance(v, bool) or k == "datum":
+                continue
+            elif isinstance(v, float):
+                x[k] = v * 1.25 + 1.0
+            elif isinstance(v, int):
+                x[k] = v + 7
+    elif isinstance(x, list):
+        for i, v in enumerate(x):
+            if isinstance(v, (dict, list)):
+                _bump_in_place(v, depth + 1)
+            elif isinstance(v, float):
+                x[i] = v * 1.25 + 1.0
+
+
+def task_after_edit(dates):
+    """The environment of a day is the law of that day whatever happened to environments handed out before: build one, edit every leaf
+    of it in place, then build the environments of the same day, the next day and another year and compare them with the reference."""
+    out = Partial()
+    for ds in dates:
+        d = datetime.date.fromisoformat(ds)
+        try:
+            p0, _ = harness.fresh_env(ds)
+        except Exception as e:  # noqa: BLE001
+            out.violation(f"set-up-raises:{type(e).__name__}", {"date": ds}, repr(e)[:200])
+            continue
+        _bump_in_place(p0)
+        for d2 in (d, d + datetime.timedelta(days=1), d.replace(year=d.year - 1)):
+            ds2 = d2.isoformat()
+            out.state(("after-edit", ds, ds2))
+            try:
+                p, _ = harness.fresh_env(ds2)
+            except Exception as e:  # noqa: BLE001
+                out.violation(f"set-up-raises:{type(e).__name__}", {"date": ds2, "after_edit_of": ds}, repr(e)[:200])
+                continue
+            out.step()
+            diffs = RP.deep_diff(p, RP.reference_params(d2))
+            if diffs:
+                groups = sorted({x.split(":")[0].split(".")[0].strip("[]'\"") for x in diffs})[:3]
+                out.violation(f"environment-depends-on-earlier-edit:{groups[0] if groups else '?'}", {"date": ds2, "after_edit_of": ds, "differences": diffs[:5]},
+                              f"after editing the environment of {ds} in place, set_up_policy_environment({ds2}) differs from the law in {len(diffs)} leaves, e.g. {diffs[:2]}")
+    return out.dump()
+
 
 def check_date_forms(rep):
     """The same day given as date, ISO string, string with time, pandas Timestamp with a time of day; 1 January as int year."""
@@ -202,6 +255,9 @@ def check_overlap_rejection(rep):
 
 
 def replay(case):
+    if "after_edit_of" in case:
+        part = task_after_edit([case["after_edit_of"]])
+        return not part["violations"], "; ".join(x[2] for x in part["violations"][:2])
     ds = case["date"]
     d = datetime.date.fromisoformat(ds)
     p, f = harness.fresh_env(ds)
@@ -264,6 +320,9 @@ def run(tier):
     cd = [d.isoformat() for d in popgen.change_dates() if d >= START]
     unc = harness.rotate(cd)[: (len(cd) if tier == "thorough" else 16)]
     for part in harness.pmap(task_uncached, [unc[i::16] for i in range(16) if unc[i::16]]):
+        rep.merge(part)
+    ed = harness.rotate(cd)[:: (1 if tier == "thorough" else 6)]
+    for part in harness.pmap(task_after_edit, [ed[i::16] for i in range(16) if ed[i::16]]):
         rep.merge(part)
     check_overlap_rejection(rep)
     check_date_forms(rep)
